@@ -3,6 +3,7 @@ use explorer::{Args, Report};
 
 mod c06;
 mod c08;
+mod c09;
 mod fixtures;
 mod c18;
 mod c24;
@@ -13,6 +14,7 @@ fn main() {
     let code = match args.property.as_str() {
         "C06" => c06::run(Report::new(&args, "model_checking")),
         "C08" => c08::run(Report::new(&args, "model_checking")),
+        "C09" => c09::run(Report::new(&args, "model_checking")),
         "C18" => c18::run(Report::new(&args, "model_checking")),
         "C24" => c24::run(Report::new(&args, "model_checking")),
         other => {
